@@ -37,7 +37,12 @@ func checkC14(c *Ctx) {
 	bps := c.callsToDeep(f, 2, byPattern)
 	if len(bps) != 1 {
 		bad = fmt.Sprintf("%d ByPattern calls, want 1", len(bps))
-	} else if !(reachesParam(bps[0].Arg(0), f, pubIdx) && stringsContains(core.Term(bps[0].Arg(0)), ".Topic")) {
+	} else if !(reachesParam(bps[0].Arg(0), f, pubIdx) && stringsContains(core.Term(bps[0].Arg(0)), ".Topic")) &&
+		!(pubIdx >= 0 && depReaches(bps[0].Arg(0), func(v ssa.Value) bool {
+			// through a helper (destinations(publish.Topic)): the helper's parameter is what Distribute passes for it
+			fa, ok := v.(*ssa.FieldAddr)
+			return ok && fieldNameOf(fa.X.Type(), fa.Field) == "Topic" && core.Strip(fa.X) == ssa.Value(f.Params[pubIdx])
+		})) {
 		bad = "destinations are not resolved from the publish's own topic"
 	}
 	var destMap ssa.Value
